@@ -212,8 +212,9 @@ impl<'a> Tokenizer<'a> {
     }
 
     fn function_or_reference_token(&self, atom: &'a str, start: usize) -> Result<Token<'a>> {
-        let peek = self.peek()?;
-        if peek.is_open_paren() {
+        let mut rest = self.chars.clone();
+        let next_char = rest.find(|(_, ch)| !is_whitespace_char(*ch));
+        if let Some((_, '(')) = next_char {
             return Ok(Token::Function(atom, Span(start, self.current())));
         }
         Ok(Token::Reference(atom, Span(start, self.current())))
